@@ -315,40 +315,61 @@ Inductive cmd :=
 | Get
 | PostErr (t : tree)                   (* POST whose body read failed; the bytes received before
                                           the failure denote t (possibly a complete valid config) *)
-| BadMethod.                           (* any method other than POST / GET *)
+| BadMethod                            (* any method other than POST / GET *)
+| SetReq (o : option N)                (* public SetRequestModifier: a probe with this id, or nil *)
+| SetRes (o : option N).               (* public SetResponseModifier *)
 
 Inductive obs :=
 | OStatus (accepted : bool)          (* POST: 200 / 400 *)
-| OOut (tr : list N) (er : list N)   (* probe traffic through the Modifier *)
+| OOut (tr : list N) (er : list N) (org : list nat)
+    (* probe traffic through the Modifier: trace, errors, and the positions of
+       the commands that CREATED the modifier instances that ran (a stale
+       instance left over from an earlier POST shows here) *)
+| OSet                               (* SetRequestModifier / SetResponseModifier returned *)
 | OCfg (i : option nat)              (* GET: which POST's body is returned *)
 | ORefused (code : N).               (* 500 body read error / 405 method not allowed *)
 
-(* martianhttp.Modifier: reqmod, resmod (noop when nil), config *)
-Record active := mkActive { areq : cmod; ares : cmod; acfg : option nat }.
+(* martianhttp.Modifier: reqmod, resmod (noop when nil), config; ghost: the
+   position of the command that created each installed modifier *)
+Record active := mkActive { areq : cmod; ares : cmod; acfg : option nat; oreq : nat; ores : nat }.
 
-Definition init_active : active := mkActive CNoop CNoop None.
+Definition init_active : active := mkActive CNoop CNoop None 0 0.
 
 (* servePOST: parse.FromJSON(body); on error 400 and return; else under the
-   lock config, reqmod, resmod are all replaced.  n = index of this command. *)
+   lock config, reqmod, resmod are all replaced - by the freshly parsed tree,
+   whatever was there.  n = index of this command. *)
 Definition post (n : nat) (a : active) (t : tree) : active * bool :=
   match compile t with
   | None => (a, false)
-  | Some r => (mkActive (or_noop (rq r)) (or_noop (rs r)) (Some n), true)
+  | Some r => (mkActive (or_noop (rq r)) (or_noop (rs r)) (Some n) n n, true)
   end.
 
 Definition serve (a : active) (k : kind) (cond : N -> bool) : eff :=
   run cond (sel k (areq a) (ares a)).
 
+(* the instances that ran were created by command o; nothing ran: nothing to see *)
+Definition origin_of (tr : list N) (o : nat) : list nat :=
+  match tr with [] => [] | _ :: _ => [o] end.
+
+(* SetRequestModifier(mod): nil -> noop *)
+Definition override (o : option N) : cmod :=
+  match o with Some id => CLeaf id false | None => CNoop end.
+
 Definition impl_step (n : nat) (a : active) (c : cmd) : active * obs :=
   match c with
   | Post t => let '(a', ok) := post n a t in (a', OStatus ok)
-  | Probe k cond => let x := serve a k cond in (a, OOut (fst x) (snd x))
+  | Probe k cond =>
+      let x := serve a k cond in
+      (a, OOut (fst x) (snd x) (origin_of (fst x) (sel k (oreq a) (ores a))))
   | Get => (a, OCfg (acfg a))
   (* servePOST: body, err := ioutil.ReadAll(req.Body); if err != nil { 500; return }
      - whatever was read is dropped *)
   | PostErr _ => (a, ORefused 500)
   (* ServeHTTP default branch: Allow header, 405 *)
   | BadMethod => (a, ORefused 405)
+  (* the config text is not touched by the setters *)
+  | SetReq o => (mkActive (override o) (ares a) (acfg a) n (ores a), OSet)
+  | SetRes o => (mkActive (areq a) (override o) (acfg a) (oreq a) n, OSet)
   end.
 
 Fixpoint impl_script (n : nat) (a : active) (cs : list cmd) : list obs :=
@@ -357,24 +378,45 @@ Fixpoint impl_script (n : nat) (a : active) (cs : list cmd) : list obs :=
   | c :: cs' => let '(a', o) := impl_step n a c in o :: impl_script (S n) a' cs'
   end.
 
-(* The property for reconfiguration: the configuration in force is the last
-   accepted tree (position, tree), initially none. *)
-Definition spec_step (n : nat) (cur : option (nat * tree)) (c : cmd)
-  : option (nat * tree) * obs :=
+(* The property for reconfiguration.  What is in force: the config text of the
+   last accepted POST; for each half, the meaning of what was installed last -
+   the last accepted tree or a later SetRequestModifier/SetResponseModifier
+   override - and which command installed it.  An accepted POST replaces ALL of
+   it, whatever the state was (also when the same configuration is POSTed
+   again): the new state does not depend on the old one. *)
+Record sstate := mkS {
+  s_cfg : option nat;
+  s_req : (N -> bool) -> eff;
+  s_res : (N -> bool) -> eff;
+  s_oreq : nat;
+  s_ores : nat
+}.
+
+Definition s_init : sstate := mkS None (fun _ => eff0) (fun _ => eff0) 0 0.
+
+Definition s_of_tree (n : nat) (t : tree) : sstate :=
+  mkS (Some n) (fun cond => eval KReq cond t) (fun cond => eval KRes cond t) n n.
+
+Definition override_meaning (o : option N) : (N -> bool) -> eff :=
+  fun _ => match o with Some id => ([id], []) | None => eff0 end.
+
+Definition spec_step (n : nat) (st : sstate) (c : cmd) : sstate * obs :=
   match c with
-  | Post t => if has_bad t then (cur, OStatus false) else (Some (n, t), OStatus true)
+  | Post t => if has_bad t then (st, OStatus false) else (s_of_tree n t, OStatus true)
   | Probe k cond =>
-      let x := match cur with Some (_, t) => eval k cond t | None => eff0 end in
-      (cur, OOut (fst x) (snd x))
-  | Get => (cur, OCfg (match cur with Some (i, _) => Some i | None => None end))
-  | PostErr _ => (cur, ORefused 500)
-  | BadMethod => (cur, ORefused 405)
+      let x := sel k (s_req st) (s_res st) cond in
+      (st, OOut (fst x) (snd x) (origin_of (fst x) (sel k (s_oreq st) (s_ores st))))
+  | Get => (st, OCfg (s_cfg st))
+  | PostErr _ => (st, ORefused 500)
+  | BadMethod => (st, ORefused 405)
+  | SetReq o => (mkS (s_cfg st) (override_meaning o) (s_res st) n (s_ores st), OSet)
+  | SetRes o => (mkS (s_cfg st) (s_req st) (override_meaning o) (s_oreq st) n, OSet)
   end.
 
-Fixpoint spec_script (n : nat) (cur : option (nat * tree)) (cs : list cmd) : list obs :=
+Fixpoint spec_script (n : nat) (st : sstate) (cs : list cmd) : list obs :=
   match cs with
   | [] => []
-  | c :: cs' => let '(cur', o) := spec_step n cur c in o :: spec_script (S n) cur' cs'
+  | c :: cs' => let '(st', o) := spec_step n st c in o :: spec_script (S n) st' cs'
   end.
 
 (* ------------------------------------------------------------------ *)
@@ -405,7 +447,9 @@ Definition optnat_eqb (a b : option nat) : bool :=
 Definition obs_eqb (a b : obs) : bool :=
   match a, b with
   | OStatus x, OStatus y => Bool.eqb x y
-  | OOut t1 e1, OOut t2 e2 => list_eqb N.eqb t1 t2 && list_eqb N.eqb e1 e2
+  | OOut t1 e1 o1, OOut t2 e2 o2 =>
+      list_eqb N.eqb t1 t2 && list_eqb N.eqb e1 e2 && list_eqb Nat.eqb o1 o2
+  | OSet, OSet => true
   | OCfg x, OCfg y => optnat_eqb x y
   | ORefused x, ORefused y => N.eqb x y
   | _, _ => false
@@ -417,7 +461,7 @@ Definition c12_ok (k : kind) (cond : N -> bool) (t : tree) (observed : outcome) 
 
 (* a reconfiguration script: every observation is that of "last accepted tree" *)
 Definition c12_script_ok (cs : list cmd) (observed : list obs) : bool :=
-  list_eqb obs_eqb observed (spec_script 0 None cs).
+  list_eqb obs_eqb observed (spec_script 0 s_init cs).
 
 (* model predictions, for the correspondence comparison *)
 Definition impl_agrees (k : kind) (cond : N -> bool) (t : tree) (observed : outcome) : bool :=
